@@ -386,6 +386,11 @@ class _Gen(object):
             lines, want, kind = self.stmt_lines(q)
         first = None
         stmt_lines = []
+        if r.random() < 0.12 and getattr(self.o, 'leading_empty_prompt', True):
+            # legitimate spacing: a line consisting only of a prompt before the statement (kept by the parser as an empty
+            # executable line; it is the first prompt line of the statement's group)
+            first = m.emit(inner + r.choice(['>>>', '>>> ']))
+            m.features.add('stmt:leading-empty-prompt')
         # a statement may consist of several top-level statements (exc-called, exc-helper): every
         # line that is not a continuation gets a PS1 prompt
         for i, l in enumerate(lines):
